@@ -803,6 +803,10 @@ def explore_profiles(prop, tier, seed, n_quick):
                 for nd_ in tp.treemap.traverse():
                     if not nd_.is_root():
                         o.put('hdup', '%s=%s,%s' % (taxS(ob.pathof_rel(nd_)), nd_.dupl, nd_.duplication))
+                        if nd_.is_leaf():
+                            # species nodes: number of genes and gained genes against the species sections + histories
+                            # (Lean: declaredAtL / unreferencedAtL; theorem C09_leaf_profile_from_dataset)
+                            o.put('hleaf', '%s=%s,%s' % (taxS(ob.pathof_rel(nd_)), nd_.nbr_genes, nd_.gain))
             if prop == 'C09':
                 if k % 5 == 0:
                     # the documented defaults (as_html=True): an outfile alone gives the HTML export of this very profile
@@ -853,7 +857,7 @@ def explore_profiles(prop, tier, seed, n_quick):
             ex.fail(cid, D, bad)
         if D.meta.get('large'):
             ex.res.count('large_datasets'); continue
-        ex.submit(cid, D, o.tags, ['load', 'tpfull', 'tpjson', 'hdup'] if prop == 'C09' else ['load', 'tpfull', 'tphog', 'tphogsub', 'hdup'], emit=['profiles'], queries=subq)
+        ex.submit(cid, D, o.tags, ['load', 'tpfull', 'tpjson', 'hdup', 'hleaf'] if prop == 'C09' else ['load', 'tpfull', 'tphog', 'tphogsub', 'hdup', 'hleaf'], emit=['profiles'], queries=subq)
     ex.finish()
     ex.close()
     return ex.res
